@@ -3,6 +3,7 @@ mod backends;
 mod c15;
 mod c16;
 mod c29;
+mod c30;
 mod c33;
 
 use proptest::prelude::*;
@@ -33,6 +34,7 @@ fn main() {
         "C15" => c15::run(&mut check),
         "C16" => c16::run(&mut check),
         "C29" => c29::run(&mut check),
+        "C30" => c30::run(&mut check),
         "C33" => c33::run(&mut check),
         other => vcommon::harness_error(format!("genrun does not serve {other}")),
     }
